@@ -1,11 +1,20 @@
 #!/usr/bin/python3
-"""For every seeded change under /verif/seeded: apply it to /repo, run every registered quick check, revert, and
-record which checks flag it (exit 1 with a VIOLATION) in seeded/<id>/meta.json and seeded/MATRIX.md."""
-import json, os, subprocess, sys, re
+"""For every seeded change under /verif/seeded: analyse /repo's current sources with the change applied and record which
+checks flag it in seeded/<id>/meta.json and seeded/MATRIX.md.
+
+Default: the patch is applied as clang virtual-file overlays (scratch copies under /verif/.work, /repo untouched) and
+every rule module runs in-process.  With --apply the patch is applied to /repo itself with `git apply`, the registered
+quick commands are run, and the tree is restored with `git checkout -- .` (the literal procedure; slower)."""
+import importlib, json, os, re, shutil, subprocess, sys
 V = "/verif"
+sys.path[:0] = [V + "/lib", V + "/rules"]
+sys.setrecursionlimit(20000)
+import facts, report, selftest
+
 man = json.load(open(V + "/MANIFEST.json"))
 ids = [c["property_id"] for c in man["checks"]]
-only = sys.argv[1:] or None
+apply_mode = "--apply" in sys.argv
+only = [a for a in sys.argv[1:] if not a.startswith("--")]
 rows = []
 for sid in sorted(os.listdir(V + "/seeded")):
     d = os.path.join(V, "seeded", sid)
@@ -14,34 +23,65 @@ for sid in sorted(os.listdir(V + "/seeded")):
         continue
     meta_p = os.path.join(d, "meta.json")
     meta = json.load(open(meta_p)) if os.path.exists(meta_p) else {}
-    if only and sid not in only and meta.get("detected_by") is not None:
-        rows.append((sid, meta)); continue
-    if subprocess.run(["git", "-C", "/repo", "status", "--porcelain", "--untracked-files=no"], capture_output=True, text=True).stdout.strip():
-        print("/repo dirty, abort"); sys.exit(2)
-    r = subprocess.run(["git", "-C", "/repo", "apply", patch])
-    if r.returncode != 0:
-        print(sid, "patch does not apply"); continue
+    if only and sid not in only:
+        rows.append((sid, meta))
+        continue
     det = {}
-    try:
-        for pid in ids:
-            out = subprocess.run(["./check", pid], cwd=V, capture_output=True, text=True).stdout
-            keys = re.findall(r"rule (\S+)\s+key (\S.*)", out)
-            code = int(re.findall(r"exit (\d)$", out.strip().split("\n")[-1])[0]) if re.findall(r"exit (\d)$", out.strip().split("\n")[-1]) else -1
-            if code == 1:
-                det[pid] = sorted(set(k for _, k in keys))
-            elif code == 2:
-                det[pid] = ["ANALYSIS-BROKEN"]
-    finally:
-        subprocess.run(["git", "-C", "/repo", "checkout", "--", "."])
+    if apply_mode:
+        if subprocess.run(["git", "-C", "/repo", "status", "--porcelain", "--untracked-files=no"], capture_output=True, text=True).stdout.strip():
+            print("/repo dirty, abort"); sys.exit(2)
+        if subprocess.run(["git", "-C", "/repo", "apply", patch]).returncode != 0:
+            print(sid, "patch does not apply"); continue
+        try:
+            for pid in ids:
+                out = subprocess.run(["./check", pid], cwd=V, capture_output=True, text=True).stdout
+                keys = re.findall(r"rule (\S+)\s+key (\S.*)", out)
+                m = re.findall(r"exit (\d)$", out.strip().split("\n")[-1])
+                code = int(m[0]) if m else -1
+                if code == 1:
+                    det[pid] = sorted(set(k for _, k in keys))
+                elif code == 2:
+                    det[pid] = ["ANALYSIS-BROKEN"]
+        finally:
+            subprocess.run(["git", "-C", "/repo", "checkout", "--", "."])
+        how = "git -C /repo apply patch.diff; ./check <id> for every registered check; git -C /repo checkout -- ."
+    else:
+        r = selftest._patched_files(patch)
+        if r is None:
+            print(sid, "patch does not apply to the current tree"); continue
+        overlays, tmpd = r
+        try:
+            Fm = facts.Facts.load("/repo", overlays=overlays)
+            for pid in ids:
+                import flow, versions
+                flow.KEYNODE.clear()
+                versions.VERSION_LOCALS.clear()
+                sub = report.Check(pid, "quick", "other")
+                try:
+                    importlib.import_module(pid.lower()).run(Fm, sub)
+                except Exception as e:
+                    sub.broken.append(repr(e))
+                known = {k["key"] for k in json.load(open(V + "/known_findings.json"))["findings"] if k.get("status") == "known"}
+                keys = sorted(set(v["key"] for v in sub.viol) - known)
+                if keys:
+                    det[pid] = keys
+                elif sub.broken:
+                    det[pid] = ["ANALYSIS-BROKEN"]
+        finally:
+            shutil.rmtree(tmpd, ignore_errors=True)
+        how = "patch applied as clang virtual-file overlays on /repo's current sources (tools/seed_matrix.py), every rule module run on the overlaid facts"
     meta.setdefault("property", sid.split("-")[-1])
     meta["detected_by"] = det
+    meta["ran"] = how
     json.dump(meta, open(meta_p, "w"), indent=1)
     rows.append((sid, meta))
     print(sid, "->", {k: len(v) for k, v in det.items()} or "NOT DETECTED")
 with open(V + "/seeded/MATRIX.md", "w") as fh:
-    fh.write("| seed | breaks | needs | detected by |\n|---|---|---|---|\n")
+    fh.write("| seed | breaks | needs | detected by (rule keys) |\n|---|---|---|---|\n")
     for sid, m in rows:
-        fh.write("| %s | %s | %s | %s |\n" % (sid, m.get("property"), (m.get("needs") or "").replace("|", "/")[:160],
-                                              ", ".join("%s (%s)" % (k, "; ".join(x.split(":",1)[0] + ":" + x.split(":")[1] if ":" in x else x for x in v[:2])) for k, v in m.get("detected_by", {}).items()) or "— (value-level, see DESIGN Appendix B)"))
-# re-run clean so evidence files are from the unchanged tree
-subprocess.run([V + "/tools/run_all.sh"], cwd=V, stdout=subprocess.DEVNULL)
+        dets = []
+        for k, v in (m.get("detected_by") or {}).items():
+            rules = sorted(set(x.split(":")[0] for x in v))
+            dets.append("%s [%s]" % (k, ", ".join(rules)))
+        fh.write("| %s | %s | %s | %s |\n" % (sid, m.get("property"), (m.get("needs") or "").replace("|", "/")[:200],
+                                              "; ".join(dets) or "— not detected (value-level, DESIGN §12.5)"))
